@@ -338,18 +338,19 @@ class Acc(Contract):
     props = ("C01", "C03")
 
     def pre(self, env):
-        return [is_set(env, "T", env.n - 1), env.Jeq_si() > 0]
+        # the solver's equivalent inertia is the documented reduction (established by _compute_powertrain_inertia)
+        return [is_set(env, "T", env.n - 1), env.Jeq_si() > 0, env.Jeq_si() == Jred(env)(env.n - 1)]
 
     def post(self, env, old):
         n = env.n
-        return [is_set(env, "acc", n - 1), env.si("acc", n - 1) * env.Jeq_si() == env.si("T", n - 1),
+        return [is_set(env, "acc", n - 1), env.si("acc", n - 1) * Jred(env)(n - 1) == env.si("T", n - 1),
                 L.Forall(0, n - 1, lambda j: coupling(env, "acc", j), name="ja")]
 
 
 @loops.loop_spec(f"{Q}._compute_angular_acceleration#0", frame=("acc",))
 def inv_acc(env, i, entry):
     n = env.n
-    return [is_set(env, "acc", n - 1), env.si("acc", n - 1) * env.Jeq_si() == env.si("T", n - 1),
+    return [is_set(env, "acc", n - 1), env.si("acc", n - 1) * Jred(env)(n - 1) == env.si("T", n - 1),
             L.Forall(i + 1, n - 1, lambda j: coupling(env, "acc", j), name="ja")]
 
 
@@ -867,7 +868,8 @@ def vars_pre(env):
     n, st = env.n, env.state
     return [is_set(env, "pos", n - 1), is_set(env, "spd", n - 1), st["tlen"] > 0, extp(env, n - 1),
             L.Forall(1, n, lambda j: Sel(st["eff"], j) > 0, name="je"),
-            env.Jeq_si() > 0, env.fac("InertiaMoment", st["Jeq_unit"]) > 0, st["pwm"] >= -1, st["pwm"] <= 1,
+            env.Jeq_si() > 0, env.Jeq_si() == Jred(env)(n - 1), env.fac("InertiaMoment", st["Jeq_unit"]) > 0,
+            st["pwm"] >= -1, st["pwm"] <= 1,
             z3.Implies(z3.Not(Sel(st["T_none"], 0)), is_set(env, "T", 0)),
             # interface invariant of the gear classes (proved per class in contracts/elements.py): flags are nested
             L.Forall(0, n, lambda j: z3.And(z3.Implies(adv(env, "bend", j), adv(env, "force", j)),
@@ -912,7 +914,7 @@ def pinst(env, old, mid_pwm_in_force):
     out.append(("net:torque=driving-load", L.Forall(0, n, lambda j: env.si("T", j) == env.si("Td", j) - env.si("Tl", j), name="jn"), ("C02",)))
     # C03
     out.append(("motion:not-held=>acceleration=net-torque/equivalent-inertia",
-                z3.Implies(z3.Not(st["locked"]), env.si("acc", n - 1) * env.Jeq_si() == env.si("T", n - 1)), ("C03",)))
+                z3.Implies(z3.Not(st["locked"]), env.si("acc", n - 1) * Jred(env)(n - 1) == env.si("T", n - 1)), ("C03",)))
     # derived
     g = env.iface.g_force
     out.append(("derived:force-from-final-torques",
@@ -1028,7 +1030,7 @@ class SymArange:
         c = sym.ctx()
         self.N = z3.Int(c.fresh_name("N"))
         c.inputs["N(arange length)"] = self.N
-        c.prove_in_path("call[numpy.arange]:step>0", self.step > 0)
+        c.prove_in_path("call[numpy.arange]:step>0", L.Via(env.ghost.get("arange_facts", []), self.step > 0))
         Nr = z3.ToReal(self.N)
         c.assume(z3.And(self.N >= 0,
                         z3.If(self.stop > self.start,
@@ -1075,10 +1077,8 @@ def run_state_inv(env):
         L.Forall(1, n, lambda j: env.si("Td", j) == env.si("Td", j - 1) * Sel(st["eff"], j) * Sel(st["ratio"], j), name="jd"),
         L.Forall(1, n, lambda j: load_rel(env, j), name="jt"),
         L.Forall(0, n, lambda j: env.si("T", j) == env.si("Td", j) - env.si("Tl", j), name="jn")]
-    d["C03:not-held=>acceleration=net-torque/Jred"] = L.Via(
-        [z3.Implies(z3.Not(st["locked"]), env.si("acc", n - 1) * env.Jeq_si() == env.si("T", n - 1)),
-         env.Jeq_si() == Jred(env)(n - 1)],
-        z3.Implies(z3.Not(st["locked"]), env.si("acc", n - 1) * Jred(env)(n - 1) == env.si("T", n - 1)))
+    d["C03:not-held=>acceleration=net-torque/Jred"] = z3.Implies(
+        z3.Not(st["locked"]), env.si("acc", n - 1) * Jred(env)(n - 1) == env.si("T", n - 1))
     d["C13:held=>all-speeds-and-accelerations-zero"] = L.Forall(
         0, n, lambda j: z3.Implies(st["locked"], z3.And(env.si("spd", j) == 0, env.si("acc", j) == 0)), name="jl")
     d["C14:recorded-duty-cycle-in-[-1,1]"] = z3.And(st["pwm"] >= -1, st["pwm"] <= 1)
@@ -1131,6 +1131,7 @@ def job_run(fresh, with_stop, with_control):
         dt = H.mkq(c, "TimeInterval", "dt")
         T = H.mkq(c, "TimeInterval", "T")
         env.ghost["run_dt"] = dt
+        env.ghost["arange_facts"] = [env.fac("Time", AM.unit_idx("Time", dt.unit)) > 0, dt.si() > 0]
         # preconditions --------------------------------------------------------------------------------
         c.assume_goal(L.Forall(1, n, lambda j: Sel(st["eff"], j) > 0, name="je"))          # property C02 quantifier
         c.assume(extp(env, n - 1))                                                          # load on the last element
@@ -1208,19 +1209,21 @@ def job_run(fresh, with_stop, with_control):
         # grid (C11/C12): arange start/stop/step against the SI grid
         t0 = e["tlast_val"]                                                # SI time of the last instant before the loop
         fdt = env.fac("Time", AM.unit_idx("Time", dt.unit))
-        O.prove("grid:step-is-dt", ar.step * fdt == DT, props=("C11", "C07"))
-        O.prove("grid:first-new-instant-is-previous+dt(SI)", ar.start * fdt == t0 + DT, props=("C11", "C12", "C07"))
-        O.prove("grid:stop-is-previous+T+dt(SI)", ar.stop * fdt == t0 + TT + DT, props=("C11", "C12", "C07"))
+        pos = [fdt > 0, DT > 0, TT > 0]
+        O.prove("grid:step-is-dt", L.Via(pos, ar.step * fdt == DT), props=("C11", "C07"))
+        O.prove("grid:first-new-instant-is-previous+dt(SI)", L.Via(pos, ar.start * fdt == t0 + DT), props=("C11", "C12", "C07"))
+        O.prove("grid:stop-is-previous+T+dt(SI)", L.Via(pos, ar.stop * fdt == t0 + TT + DT), props=("C11", "C12", "C07"))
         Nr = z3.ToReal(ar.N)
         K = z3.Int("Ksteps")
         exactN = z3.And(K >= 1, TT == z3.ToReal(K) * DT)
-        Nr_ = z3.ToReal(ar.N)
         arange_contract = z3.And(ar.N >= 0, z3.If(ar.stop > ar.start,
-                                                  z3.And((Nr_ - 1) * ar.step < ar.stop - ar.start, ar.stop - ar.start <= Nr_ * ar.step),
+                                                  z3.And((Nr - 1) * ar.step < ar.stop - ar.start, ar.stop - ar.start <= Nr * ar.step),
                                                   ar.N == 0))
-        O.prove_via("grid:T=K*dt=>exactly-K-instants-requested",
-                    [ar.step * fdt == DT, ar.start * fdt == t0 + DT, ar.stop * fdt == t0 + TT + DT, arange_contract, fdt > 0, DT > 0],
-                    z3.Implies(exactN, ar.N == K), props=("C11",))
+        F_step = L.Via(pos, ar.step * fdt == DT)
+        F_start = L.Via(pos, ar.start * fdt == t0 + DT)
+        F_stop = L.Via(pos, ar.stop * fdt == t0 + TT + DT)
+        F_N = L.Via(pos + [arange_contract, F_step, F_start, F_stop], z3.Implies(exactN, ar.N == K))
+        O.prove("grid:T=K*dt=>exactly-K-instants-requested", F_N, props=("C11",))
         for name, gl in run_state_inv(env).items():
             O.prove(f"ensures:RunInv[{name}]", gl, props=_props_of(name))
         if ex and ex[0] == "break":
@@ -1234,11 +1237,10 @@ def job_run(fresh, with_stop, with_control):
             O.cover("exit:exhausted")
             stf = env.state
             O.prove("grid:all-requested-instants-recorded", stf["tlen"] == e["tlen"] + ar.N, props=("C11",))
-            # arithmetic cut: the facts are proved from the path, the goal from the facts alone (nlsat)
-            facts = [z3.Implies(ar.N >= 1, stf["tlast_val"] == (ar.start + (Nr - 1) * ar.step) * fdt),
-                     ar.start * fdt == t0 + DT, ar.step * fdt == DT, z3.Implies(exactN, ar.N == K)]
-            O.prove_via("grid:T=K*dt=>last-instant=previous+T-and-none-beyond", facts,
-                        z3.Implies(exactN, stf["tlast_val"] == t0 + TT), props=("C11", "C12"))
+            # arithmetic cut: the facts are proved from the path (by matching), the goal from the facts alone (nlsat)
+            facts = [F_N, F_step, F_start, z3.Implies(ar.N >= 1, stf["tlast_val"] == (ar.start + (Nr - 1) * ar.step) * fdt)]
+            O.prove("grid:T=K*dt=>last-instant=previous+T-and-none-beyond",
+                    L.Via(facts, z3.Implies(exactN, stf["tlast_val"] == t0 + TT)), props=("C11", "C12"))
             O.prove("grid:instants-carry-dt's-unit", z3.Implies(ar.N >= 1, stf["tlast_unit"] == AM.unit_idx("Time", dt.unit)), props=("C11",))
 
     tag = ("fresh" if fresh else "continuation") + (",stop" if with_stop else "") + (",control" if with_control else "")
